@@ -168,7 +168,12 @@ func cmdC15(seed uint64, tier, outdir string) {
 			a, b := l.VerifInner().NearestMatch(query), direct.NearestMatch(query)
 			// below the reporting threshold several unrelated licenses can tie at the same tiny confidence and either
 			// may be returned (the candidates are ranked by confidence only): the name is compared from the threshold up
-			if a.Confidence != b.Confidence || (a.Name != b.Name && a.Confidence >= lc.DefaultConfidenceThreshold) {
+			// ... and far below it the confidence itself is not a function of the texts: go-diff's DiffMain runs under
+			// a one-second deadline and returns a coarser diff when it expires (long unrelated texts, loaded machine),
+			// so two runs of the same classifier can disagree there. Compared exactly from the threshold up; below it
+			// both sides only have to stay below.
+			thr0 := lc.DefaultConfidenceThreshold
+			if (a.Confidence >= thr0 || b.Confidence >= thr0) && (a.Confidence != b.Confidence || a.Name != b.Name) {
 				verdict = fmt.Sprintf("NearestMatch differs: archive %s:%v direct %s:%v", a.Name, a.Confidence, b.Name, b.Confidence)
 			}
 			norm := lc.VerifNormalize(query)
